@@ -190,6 +190,8 @@ func runC01(c *Ctx) {
 		var err, err2 error
 		if pi := mon.Guard(func() {
 			R, S, err = sm2.Sm2Sign(priv, msg, id, rd1)
+			keepInt("sm2.Sm2Sign.r", R)
+			keepInt("sm2.Sm2Sign.s", S)
 			R2, S2, err2 = sm2.Sm2Sign(key.priv(), msg, id, rd2)
 		}); pi != nil {
 			rep.Violation("C01/Sm2Sign/panic/"+pi.Func, pi.Value, w)
@@ -274,7 +276,7 @@ func runC01(c *Ctx) {
 			var der []byte
 			var derr error
 			rd3 := mkReader()
-			if pi := mon.Guard(func() { der, derr = key.priv().Sign(rd3, msg, nil) }); pi != nil {
+			if pi := mon.Guard(func() { der, derr = key.priv().Sign(rd3, msg, nil); keep("sm2.PrivateKey.Sign", der) }); pi != nil {
 				rep.Violation("C01/PrivateKey.Sign/panic/"+pi.Func, pi.Value, w)
 			} else if derr != nil {
 				rep.Violation("C01/PrivateKey.Sign/error", derr.Error(), w)
